@@ -1,15 +1,206 @@
 /-
-C05 — property theorems (statements only; proofs of helper lemmas live in Proofs*.lean).
+C05 — "Only real equivocation is slashable, and it is slashed exactly once": the property theorems.
+Statements only; helper lemmas are in Proofs*.lean, the vocabulary (Vote, Honest, SingleHash, SignedOnly, EvWF,
+KeyOf, ValWF) in Spec.lean, the model of the Go code in Model.lean.
 -/
-import YouVerif.C05.Model
+import YouVerif.C05.Proofs
+import YouVerif.C05.ProofsPenalty
 
 namespace YouVerif.C05
 
-/-- The guard of the F-C05c repair, stated: with `Stake = 0` nothing is prorated — delegations and their owners'
-withdraw shares are computed with a per-stake share of 0 (the Go code used to panic here). -/
-theorem takePenalty_total_guard (unit : Int) (q : List WRec) (v : Val) (amount : Int) (h0 : v.stake = 0) :
-    takePenalty unit q v amount =
-      takePenalty unit q { v with stake := 0, delegs := v.delegs } amount := by
-  cases v; simp_all
+variable {σ : Type}
+
+/-! ## 1. The signed payload -/
+
+/-- The signed bytes hash ‖ round.Bytes() ‖ uint32(index) determine (hash, round, index) — and nothing else:
+the vote kind is not part of them (root of F-C05b). -/
+theorem payload_injective {h h' : Bytes} {r r' i i' : Nat}
+    (hh : h.length = 32) (hh' : h'.length = 32)
+    (hr : r < 18446744073709551616) (hr' : r' < 18446744073709551616)
+    (hi : i < 4294967296) (hi' : i' < 4294967296)
+    (heq : payload h r i = payload h' r' i') : h = h' ∧ r = r' ∧ i = i' :=
+  payload_inj hh hh' hr hr' hi hi' heq
+
+/-! ## 2. Honest validators -/
+
+/-- Full-strength target: a validator whose key signed only the votes of a protocol-following history (at most one
+hash per vote KIND and (round, index)) is never convicted, whatever evidence is assembled.
+FALSE of the code that exists (F-C05b, see `honest_never_slashed_counterexample`): kept as a statement. -/
+def honest_never_slashed_statement : Prop :=
+  ∀ (σ : Type) (env : Env σ) (st : St) (seen : List Addr) (e : Ev σ) (k : Key) (votes : List Vote),
+    EvWF e → (∀ w ∈ votes, VoteWF w) → SignedOnly env.verify k votes → Honest votes →
+    ∀ signer v, ¬ Accepts env st seen e signer k v
+
+/-- What holds while F-C05b is open (and only since the F-C05a repair): if every BLS key that a look-back set
+associates with main address `a` signed at most one hash per (round, index) — across all vote kinds — then no list
+of evidences, however assembled (any index, kind, pairs, forged or real signatures), gets `a` penalised, and `a`'s
+record comes out of `processEvidences` exactly as it went in.  BLS unforgeability is the hypothesis `hEUF`. -/
+theorem honest_never_slashed_partial (env : Env σ) (a : Addr) (votes : Key → List Vote)
+    (hwf : ∀ k, KeyOf env.cfg env.chain a k → ∀ w ∈ votes k, VoteWF w)
+    (hEUF : ∀ k, KeyOf env.cfg env.chain a k → SignedOnly env.verify k (votes k))
+    (hsingle : ∀ k, KeyOf env.cfg env.chain a k → SingleHash (votes k))
+    (evs : List (Ev σ)) (hev : ∀ e ∈ evs, EvWF e) (st : St) (seen : List Addr) :
+    a ∉ penalisedOf (processAll env st seen evs).verdicts ∧
+    findVal (processAll env st seen evs).st.vals a = findVal st.vals a := by
+  have hnot : a ∉ penalisedOf (processAll env st seen evs).verdicts := by
+    intro hmem
+    obtain ⟨e, he, st', seen', signer, k, v, hacc, hsa⟩ := processAll_penalised_accepts env evs st seen a hmem
+    have hk : KeyOf env.cfg env.chain a k := by
+      obtain ⟨vs, h1, h2⟩ := hacc.lb
+      refine ⟨e.round, e.voteType == 5, vs, e.signerIdx, h1, ?_⟩
+      rw [h2]
+      cases signer with
+      | mk sa sk =>
+        simp only at hsa
+        have := hacc.key
+        simp only at this
+        rw [hsa, this]
+    obtain ⟨v1, hv1, v2, hv2, r1, i1, r2, i2, hne⟩ := accepts_two_votes hacc (hev e he) (hwf k hk) (hEUF k hk)
+    exact hne (hsingle k hk v1 hv1 v2 hv2 (by rw [r1, r2]) (by rw [i1, i2]))
+  exact ⟨hnot, processAll_frame env a evs st seen hnot⟩
+
+/-! ### the counterexample to the full statement (F-C05b), on the model; replayed on the real code by the harness
+(probe F-C05b, matcher `cross-kind-evidence`) -/
+
+namespace CE
+def A : Bytes := List.replicate 32 1
+def B : Bytes := List.replicate 32 2
+/-- an honest history: prevote(A) then precommit(B) in (round 5, index 0) -/
+def votes : List Vote := [⟨2, A, 5, 0⟩, ⟨3, B, 5, 0⟩]
+/-- symbolic signatures, of which exactly the two honest votes were ever issued under key 7 -/
+def verify (k : Key) (msg : Bytes) (s : SymSig) : Bool :=
+  symVerify k msg s && (k == 7) && (msg == payload A 5 0 || msg == payload B 5 0)
+def cfg : Cfg := { frac := 2, expelRounds := 256, maxExpired := 120, stakeLookBack := 16, certLookBack := 65536, protoBack := 8, unit := 10 }
+def env : Env SymSig := { cfg := cfg, chain := { head := 5, sets := [(0, [⟨1, some 7⟩])] }, verify := verify, parent := 5, hdrNum := 6 }
+def v : Val := { addr := 1, status := 1, expelled := false, expelExpired := 0, token := 1000, stake := 100, selfToken := 1000, selfStake := 100, risk := 0, delegs := [] }
+def st : St := { vals := [v], queue := [], penaltyTo := 0 }
+def e : Ev SymSig := { typeOK := true, decodeOK := true, round := 5, roundIndex := 0, signerIdx := 0, voteType := 2,
+                       pairs := [(A, .signed 7 (payload A 5 0)), (B, .signed 7 (payload B 5 0))] }
+end CE
+
+/-- F-C05b on the model: the honest prevote(A) and the honest precommit(B) of one (round, index), put together as
+"double-sign evidence", get the honest validator penalised: 2 % of its token taken, expelled, offline. -/
+theorem honest_never_slashed_counterexample :
+    Honest CE.votes ∧ SignedOnly CE.verify 7 CE.votes ∧ EvWF CE.e ∧ (∀ w ∈ CE.votes, VoteWF w) ∧
+    processOne CE.env CE.st [] CE.e =
+      ({ vals := [{ CE.v with status := 0, expelled := true, expelExpired := 262, token := 980, stake := 98, selfToken := 980, selfStake := 98 }],
+         queue := [], penaltyTo := 20 }, [1], .penalised 1 20) := by
+  refine ⟨by unfold Honest; decide, ?_, ?_, ?_, by decide⟩
+  · intro msg s h
+    simp only [CE.verify, Bool.and_eq_true, Bool.or_eq_true, beq_iff_eq] at h
+    rcases h.2 with h | h
+    · exact ⟨⟨2, CE.A, 5, 0⟩, by simp [CE.votes], h⟩
+    · exact ⟨⟨3, CE.B, 5, 0⟩, by simp [CE.votes], h⟩
+  · refine ⟨by decide, by decide, ?_⟩
+    intro p hp
+    simp only [CE.e, List.mem_cons, List.mem_nil_iff, or_false] at hp
+    rcases hp with rfl | rfl <;> decide
+  · intro w hw
+    simp only [CE.votes, List.mem_cons, List.mem_nil_iff, or_false] at hw
+    rcases hw with rfl | rfl <;> (unfold VoteWF; decide)
+
+theorem honest_never_slashed_statement_false : ¬ honest_never_slashed_statement := by
+  intro h
+  obtain ⟨h1, h2, h3, h4, h5⟩ := honest_never_slashed_counterexample
+  rcases processOne_spec CE.env CE.st [] CE.e with ⟨signer, k, v, hacc, heq⟩ | ⟨_, _, hc⟩
+  · have hk : k = 7 := by
+      obtain ⟨vs, hl, hi⟩ := hacc.lb
+      have : vs = [⟨1, some 7⟩] := by
+        have : lookBackSet CE.env.cfg CE.env.chain CE.e.round (CE.e.voteType == 5) = some [⟨1, some 7⟩] := by decide
+        rw [this] at hl; exact (Option.some.inj hl).symm
+      subst this
+      have hs : signer = ⟨1, some 7⟩ := by
+        have : ([⟨1, some 7⟩] : List LbEntry)[CE.e.signerIdx]? = some ⟨1, some 7⟩ := by decide
+        rw [this] at hi; exact (Option.some.inj hi).symm
+      have := hacc.key
+      rw [hs] at this
+      exact (Option.some.inj this).symm
+    subst hk
+    exact h SymSig CE.env CE.st [] CE.e 7 CE.votes h3 h4 h2 h1 signer v hacc
+  · rw [h5] at hc
+    simp [isConfirmed] at hc
+
+/-! ## 3. Real equivocation is accepted, by builder and validator alike, once -/
+
+/-- Evidence of ≥ 2 votes with two different hashes, each validly signed under the BLS key of the validator the
+evidence indexes in the look-back set of the parent round, is accepted: the validator is penalised (`doPenalize`),
+comes out expelled and offline, and is marked in the once-per-validator set. -/
+theorem equivocation_accepted (env : Env σ) (st : St) (seen : List Addr) (e : Ev σ)
+    (vs : List LbEntry) (signer : LbEntry) (k : Key) (v : Val)
+    (ht : e.typeOK = true) (hd : e.decodeOK = true) (hround : e.round = env.parent)
+    (hlen : 2 ≤ e.pairs.length) (hdist : distinctHashes e.pairs = true)
+    (hlb : lookBackSet env.cfg env.chain e.round (e.voteType == 5) = some vs)
+    (hidx : vs[e.signerIdx]? = some signer) (hk : signer.key = some k)
+    (hsig : ∀ p ∈ e.pairs, env.verify k (payload p.1 e.round e.roundIndex) p.2 = true)
+    (hnz : signer.addr ≠ 0) (hfresh : signer.addr ∉ seen) (hcur : findVal st.vals signer.addr = some v) :
+    processOne env st seen e = (penalise env st v, signer.addr :: seen, .penalised signer.addr (penaltyOf env st v).total) ∧
+    ∃ nv, findVal (penalise env st v).vals signer.addr = some nv ∧ nv.expelled = true ∧ nv.status = 0 := by
+  have hpre : precheck env e = .go := by
+    unfold precheck
+    simp [ht, hd, hdist, hround]
+    omega
+  have hall : (e.pairs.all fun p => env.verify k (payload p.1 e.round e.roundIndex) p.2) = true :=
+    List.all_eq_true.mpr hsig
+  have hfs : findSigner env e = .ok (signer, k) := by
+    unfold findSigner
+    simp [hlb, hidx, hk, hall, hnz]
+  refine ⟨?_, ?_⟩
+  · unfold processOne
+    simp [hpre, hfs, hfresh, hcur]
+  · have hva := findVal_addr hcur
+    have haddr : (penaltyOf env st v).newVal.addr = signer.addr := by
+      simp only [penaltyOf]; rw [doPenalize_addr, hva]
+    refine ⟨(penaltyOf env st v).newVal, ?_, ?_, ?_⟩
+    · simp only [penalise]
+      rw [← haddr]
+      exact findVal_setVal_eq _ _ v (by rw [haddr]; exact hcur)
+    · simp [penaltyOf, doPenalize]
+    · simp [penaltyOf, doPenalize]
+
+/-- the hypotheses of `equivocation_accepted` are satisfiable: two prevotes for different hashes -/
+example : ∃ (env : Env SymSig) (st : St) (e : Ev SymSig) (vs : List LbEntry) (signer : LbEntry) (k : Key) (v : Val),
+    e.typeOK = true ∧ e.decodeOK = true ∧ e.round = env.parent ∧ 2 ≤ e.pairs.length ∧ distinctHashes e.pairs = true ∧
+    lookBackSet env.cfg env.chain e.round (e.voteType == 5) = some vs ∧ vs[e.signerIdx]? = some signer ∧ signer.key = some k ∧
+    (∀ p ∈ e.pairs, env.verify k (payload p.1 e.round e.roundIndex) p.2 = true) ∧ signer.addr ≠ 0 ∧ findVal st.vals signer.addr = some v :=
+  ⟨{ CE.env with verify := symVerify }, CE.st, CE.e, [⟨1, some 7⟩], ⟨1, some 7⟩, 7, CE.v,
+    by decide, by decide, by decide, by decide, by decide, by decide, by decide, by decide,
+    by intro p hp; simp only [CE.e, List.mem_cons, List.mem_nil_iff, or_false] at hp; rcases hp with rfl | rfl <;> decide,
+    by decide, by decide⟩
+
+/-- Builder and validator agree: replaying the SlashData the builder wrote (the confirmed evidences, in order) from
+the same state and the same block number gives exactly the builder's state and the same affected validators.
+(Both paths judge rounds against header.Number - 1, `blockEnv`.) -/
+theorem builder_replay_agree (cfg : Cfg) (chain : Chain) (verify : Key → Bytes → σ → Bool) (hdrNum : Nat)
+    (st : St) (pool : List (Ev σ)) :
+    let env := blockEnv cfg chain verify hdrNum
+    (replayBlock env st (sealBlock env st pool).2).st = (sealBlock env st pool).1.st ∧
+    affectedOf (replayBlock env st (sealBlock env st pool).2).verdicts = affectedOf (sealBlock env st pool).1.verdicts ∧
+    penalisedOf (replayBlock env st (sealBlock env st pool).2).verdicts = penalisedOf (sealBlock env st pool).1.verdicts := by
+  intro env
+  obtain ⟨h1, _, h3⟩ := processAll_replay env pool st []
+  simp only [replayBlock, sealBlock]
+  exact ⟨h1, by rw [h3, affectedOf_filter], by rw [h3, penalisedOf_filter]⟩
+
+/-- Exactly once: within one block's evidence list nobody is penalised twice — neither in the list of validators
+`doPenalize` ran on, nor in the affected list — whatever the list contains (duplicates, several evidences against
+one validator, the same validator through POS and certificate look-back). -/
+theorem once_per_block (env : Env σ) (st : St) (evs : List (Ev σ)) :
+    (penalisedOf (processAll env st [] evs).verdicts).Nodup ∧ (affectedOf (processAll env st [] evs).verdicts).Nodup := by
+  have h := (processAll_nodup env evs st []).1
+  exact ⟨h, List.Nodup.sublist (affectedOf_sublist _) h⟩
+
+/-! ## 4. The penalty -/
+
+/-- The guard of the F-C05c repair, stated: with `Stake = 0` (which made the Go code panic) nothing is prorated:
+every delegation's share is 0 and the validator's own share is the whole amount. -/
+theorem takePenalty_total_guard (v : Val) (amount : Int) (h0 : v.stake = 0) :
+    perOf v amount = 0 ∧ selfShare v amount = amount ∧
+    ∀ d ∈ v.delegs, rmGet (dlgShares (perOf v amount) v.delegs []) d.delegator = some 0 := by
+  have hp : perOf v amount = 0 := by simp [perOf, h0]
+  refine ⟨hp, ?_, ?_⟩
+  · simp [selfShare, perOf, remOf, h0]
+  · intro d hd
+    rw [hp]
+    exact dlgShares_zero v.delegs [] d hd
 
 end YouVerif.C05
